@@ -15,6 +15,7 @@ import (
 	"github.com/flant/shell-operator/pkg/task"
 	"github.com/flant/shell-operator/pkg/utils/exponential_backoff"
 	"github.com/flant/shell-operator/pkg/utils/measure"
+	"github.com/flant/shell-operator/pkg/verifhook"
 )
 
 /*
@@ -426,6 +427,7 @@ func (q *TaskQueue) Start() {
 			q.debugf("queue %s: wait for task, delay %d", q.Name, sleepDelay)
 			t := q.waitForTask(sleepDelay)
 			if t == nil {
+				verifhook.At("q.exit", q)
 				q.SetStatus("stop")
 				log.Info("queue stopped", slog.String("name", q.Name))
 				return
@@ -439,16 +441,19 @@ func (q *TaskQueue) Start() {
 			var nextSleepDelay time.Duration
 			q.SetStatus("run first task")
 			taskRes := q.Handler(t)
+			verifhook.At("q.handled", q)
 
 			// Check Done channel after long-running operation.
 			select {
 			case <-q.ctx.Done():
 				log.Info("queue stopped after task handling", slog.String("name", q.Name))
+				verifhook.At("q.exit", q)
 				q.SetStatus("stop")
 				return
 			default:
 			}
 
+			verifhook.At("q.apply", q)
 			switch taskRes.Status {
 			case Fail:
 				// Exponential backoff delay before retry.
@@ -504,6 +509,7 @@ func (q *TaskQueue) Start() {
 // sleepDelay is used to sleep before check a task, e.g. in case of failed previous task.
 // If queue is empty, then it will be checked every DelayOnQueueIsEmpty.
 func (q *TaskQueue) waitForTask(sleepDelay time.Duration) task.Task {
+	verifhook.At("q.top", q)
 	// Check Done channel.
 	select {
 	case <-q.ctx.Done():
@@ -511,8 +517,10 @@ func (q *TaskQueue) waitForTask(sleepDelay time.Duration) task.Task {
 	default:
 	}
 
+	verifhook.At("q.shortcut", q)
 	// Shortcut: return the first task if the queue is not empty and delay is not required.
 	if !q.IsEmpty() && sleepDelay == 0 {
+		verifhook.At("q.get", q)
 		return q.GetFirst()
 	}
 
@@ -545,6 +553,7 @@ func (q *TaskQueue) waitForTask(sleepDelay time.Duration) task.Task {
 	// Or, delay can be canceled to handle new head task immediately.
 	for {
 		checkTask := false
+		verifhook.At("q.select", q)
 		select {
 		case <-q.ctx.Done():
 			// Queue is stopped.
@@ -573,6 +582,7 @@ func (q *TaskQueue) waitForTask(sleepDelay time.Duration) task.Task {
 				// No task to return: increase wait time.
 				waitUntil += q.DelayOnQueueIsEmpty
 			} else {
+				verifhook.At("q.get", q)
 				return q.GetFirst()
 			}
 		}
@@ -653,6 +663,7 @@ func (q *TaskQueue) String() string {
 func (q *TaskQueue) withLock(fn func()) {
 	q.m.Lock()
 	fn()
+	verifhook.At("q.write", q, q.items)
 	q.m.Unlock()
 }
 
